@@ -84,6 +84,18 @@ pub fn guarded<R>(what: &str, f: impl FnOnce() -> R) -> Option<R> {
         Err(e) => {
             if e.is::<UserPanic>() {
                 w(|w| w.user_panics += 1);
+                // did the panic unwind out of a writer's debt walk?
+                let me = rt::current();
+                let in_walk = w(|w| {
+                    let d = w.payall_depth.get(me).copied().unwrap_or(0);
+                    if let Some(x) = w.payall_depth.get_mut(me) {
+                        *x = 0;
+                    }
+                    d > 0
+                });
+                if in_walk {
+                    crate::marks::mark("panic-unwound-through-debt-walk: a user panic (destructor) left pay_all by unwinding".to_string());
+                }
                 std::mem::forget(e);
                 None
             } else {
@@ -634,8 +646,13 @@ fn op_rcu(ctx: Ctx, c: u8, spec: RcuSpec, h: u8) {
                     let x: T = T::fresh(next_payload());
                     let xa = (x.peek_uid(), x.addr());
                     let rr = rec_begin();
-                    cv.store(x);
+                    // The store takes effect at its exchange; a panic can only come afterwards
+                    // (destructor of the replaced value), so it is recorded either way.
+                    let res = catch_unwind(AssertUnwindSafe(|| cv.store(x)));
                     rec_end(ctx, rr, c, CallKind::Store, xa, 0, (0, 0), true);
+                    if let Err(e) = res {
+                        std::panic::resume_unwind(e);
+                    }
                 }
                 if spec.panic_at != 0 && attempt == spec.panic_at {
                     std::panic::resume_unwind(Box::new(UserPanic("rcu closure")));
@@ -1526,6 +1543,19 @@ pub fn event_hook(id: u32, arg: usize) {
                 format!("thread {} claimed a node that thread {} still owns", me, p),
             );
         }
+    } else if id == probes::PAYALL_ENTER {
+        w(|w| {
+            if w.payall_depth.len() <= me {
+                w.payall_depth.resize(me + 1, 0);
+            }
+            w.payall_depth[me] += 1;
+        });
+    } else if id == probes::PAYALL_EXIT {
+        w(|w| {
+            if let Some(d) = w.payall_depth.get_mut(me) {
+                *d = d.saturating_sub(1);
+            }
+        });
     } else if id == probes::PAYALL_PAID_SLOT {
         // a writer paid the debt in slot `arg`; which storage it works for follows
         w(|w| w.last_paid_slot = arg);
